@@ -44,7 +44,8 @@ def cases(tier, seed):
                     yield mk_case(t, p, opt)
         else:
             p = r.choice(paths) if r.random() < 0.85 else ()
-            yield mk_case(t, p, r.choice([True, False, None]))
+            # 'noroot' is the deprecated spelling of None; anything else is refused before the file is touched
+            yield mk_case(t, p, r.choice([True, False, None, True, False, None, "noroot", "all"]))
 
 
 def run_both(drv, case):
@@ -77,6 +78,10 @@ def expected_root(src, opt):
 def oracle(case, obs):
     src = hist.LAST["msteps"][0]["src"]
     opt = case["steps"][0]["tree"]
+    if opt == "all":
+        return None if obs[0].get("err") == "refused" else {"invalid_tree_value_not_refused": obs[0]}
+    if opt == "noroot":
+        opt = None
     if obs[0] != {"ok": True}:
         return {"save_failed": obs[0]}
     roots = hist.file_roots(obs[1])
